@@ -204,6 +204,19 @@ func cmdKeys(args []string, w *bufio.Writer) {
 				err = safely(func() error { return signature.VerifyString(msg, true, f, rc0, sg) })
 			}
 			rep("sig-string-roundtrip", f, pw, err == nil, fmt.Sprint(err))
+			// messages of every shape: line feeds (bare, CRLF, trailing), empty, binary
+			for _, m := range []string{"", "\n", "x\n", "two\nlines", "cr\r\nlf", "tab\tand \x00 nul", strings.Repeat("long line ", 200)} {
+				m := m
+				var sgm string
+				e := safely(func() error { var e error; sgm, e = signature.SignString(m, true, f, id0); return e })
+				if e == nil {
+					e = safely(func() error { return signature.VerifyString(m, true, f, rc0, sgm) })
+				}
+				if e != nil {
+					rep("sig-string-roundtrip", f, pw, false, fmt.Sprintf("message %q: %v", m, e))
+					break
+				}
+			}
 			// a different message must not verify
 			err = safely(func() error { return signature.VerifyString(msg+"x", true, f, rc0, sg) })
 			rep("sig-altered-message", f, pw, err != nil, fmt.Sprint(err))
